@@ -238,7 +238,7 @@ def _shifted(P, pseed):
 
 def eval_C16(case):
     from lbfgsb import minimize_lbfgsb
-    from lbfgsb.base import projgr
+    from harness.runs import ref_projgr as projgr   # the harness's own implementation, not the package's
 
     P = gen.make_problem(case["spec"])
     if case.get("shift") and case["mode"] != "cs":
